@@ -116,3 +116,142 @@ def aggr_assigns(body, adt_suffix, variant=None):
         rv = s['rv']
         return rv['k'] == 'aggr' and (rv.get('adt') or '').endswith(adt_suffix) and (variant is None or rv['variant'] == variant)
     return body.assigns(p)
+
+
+# ---------------------------------------------------------------------------------------------------------------
+# idiom-level helpers (each accepts the equivalent spellings a maintainer may choose)
+# ---------------------------------------------------------------------------------------------------------------
+def opt_is(atom, pred, variant):
+    """atom asserts that the Option term selected by pred is `variant` ('Some' | 'None'):
+    is_some()/is_none() tests, `if let` / `match` discriminant tests"""
+    want_some = variant == 'Some'
+    if atom[0] in ('T', 'F') and M.is_call(atom[1], 'is_some', 'is_none') and pred(atom[1][2][0]):
+        is_some_call = atom[1][1].endswith('is_some')
+        return (atom[0] == 'T') == (is_some_call == want_some)
+    if atom[0] == 'in' and pred(atom[1]) and atom[2] == frozenset([variant]):
+        return True
+    return False
+
+
+def ord_names(atoms, pred):
+    """Ordering outcomes (subset of Less/Equal/Greater) that the Ordering-valued term selected by pred may have on a path:
+    from match arms, from `== Ordering::X` / `!= Ordering::X` tests, or None if it is never tested"""
+    cur = None
+    ALL = {'Less', 'Equal', 'Greater'}
+    def name(t):
+        return t[2] if isinstance(t, tuple) and t and t[0] == 'aggr' and t[1].endswith('cmp::Ordering') else None
+    for a in atoms:
+        st = None
+        if a[0] == 'in' and pred(a[1]):
+            st = set(a[2]) & ALL
+        elif a[0] == 'cmp' and a[3] in (frozenset('='), frozenset('<>')):
+            for (x, y) in ((a[1], a[2]), (a[2], a[1])):
+                if pred(x) and name(y):
+                    st = {name(y)} if a[3] == frozenset('=') else ALL - {name(y)}
+        if st is not None:
+            cur = st if cur is None else cur & st
+    return cur
+
+
+def bool_fn_paths(body):
+    """[(atoms, returned term)] for the consistent loop-free paths of a bool-returning body"""
+    from .dd_rules import _path_ret
+    out = []
+    for (edges, blocks, end) in M.enumerate_paths(body, (0, 0)):
+        atoms = M.path_atoms(body, edges)
+        if not M.consistent(atoms):
+            continue
+        rt = _path_ret(body, blocks, end)
+        if rt is None:
+            rets = body.return_blocks()
+            rt = body.origin.place({'l': 0, 'p': []}, body.term_point(rets[0])) if rets else None
+        out.append((atoms, rt, blocks, end))
+    return out
+
+
+def returns_value_only_if(body, value, holds):
+    """every path on which the bool-returning `body` may return `value` (True/False) satisfies holds(atoms, returned term):
+    a constant return is judged on the path condition; a returned boolean TERM t stands for itself (returning t means
+    'true iff t'): it is handed to `holds` as an extra atom."""
+    paths = bool_fn_paths(body)
+    if not paths:
+        return False
+    for (atoms, rt, blocks, end) in paths:
+        if M.is_const(rt, not value):
+            continue
+        if M.is_const(rt, value):
+            if not holds(atoms):
+                return False
+            continue
+        if rt is None:
+            return False
+        extra = M.lit_atoms(('T' if value else 'F', rt))
+        if not holds(list(atoms) + extra):
+            return False
+    return True
+
+
+def guarded_update(body, pt, dest, val, kind):
+    """candidates E such that the write `dest := val` at pt implements dest := max(dest, E) (kind='max') or min (kind='min'):
+    either val = max(dest, E) itself, or val = E written only on an edge asserting E > dest / E >= dest (resp. <, <=)"""
+    out = []
+    if isinstance(val, tuple) and val[0] == kind and dest in val[1]:
+        out.extend(x for x in val[1] if x != dest)
+        return out
+    rel = '>=' if kind == 'max' else '<='
+    strict = '>' if kind == 'max' else '<'
+    def acc(atoms, lit):
+        for a in atoms:
+            if a[0] == 'cmp':
+                for (x, y, s_) in ((a[1], a[2], a[3]), (a[2], a[1], frozenset({'<': '>', '>': '<', '=': '='}[c] for c in a[3]))):
+                    if x == val and y == dest and s_ and s_ <= frozenset(rel) and strict in s_:
+                        return True
+        return False
+    ok, cut, bad = M.guarded(body, [pt], acc)
+    if ok:
+        out.append(val)
+    return out
+
+
+def zeroes_all(body, field_pred):
+    """points where every element of the Vec field selected by field_pred is set to 0: for_each(|o| *o = 0), fill(0), or a
+    `for o in v.iter_mut() { *o = 0 }` loop"""
+    pts = []
+    for (bb, t) in body.calls_to('for_each', 'fill'):
+        if M.contains(body.origin.operand(t['args'][0], body.term_point(bb)), field_pred):
+            pts.append(body.term_point(bb))
+    for (pt, d, v, s) in writes(body):
+        if M.is_const(v, 0) and M.contains(d, lambda x: M.is_call(x, 'Iterator::next')) and M.contains(d, lambda x: M.is_call(x, 'iter_mut')) and M.contains(d, field_pred):
+            pts.append(pt)
+    return pts
+
+
+def enum_is(atom, pred, variant):
+    """atom asserts that the enum-valued term selected by pred is the unit variant `variant`: a match arm / matches! test, or an
+    `== Enum::Variant` comparison (derived PartialEq)"""
+    if atom[0] == 'in' and pred(atom[1]) and atom[2] == frozenset([variant]):
+        return True
+    if atom[0] == 'cmp' and atom[3] == frozenset('='):
+        for (x, y) in ((atom[1], atom[2]), (atom[2], atom[1])):
+            if pred(x) and isinstance(y, tuple) and y and y[0] == 'aggr' and y[2] == variant:
+                return True
+    return False
+
+
+def empty_lit(atom, pred, empty=True):
+    """atom asserts that the container selected by pred is empty (or non-empty): is_empty() tests, len() == 0 / != 0 / > 0"""
+    if atom[0] in ('T', 'F') and M.is_call(atom[1], 'is_empty') and pred(atom[1][2][0]):
+        return (atom[0] == 'T') == empty
+    if atom[0] == 'cmp':
+        for (x, y, rel) in ((atom[1], atom[2], atom[3]), (atom[2], atom[1], frozenset({'<': '>', '>': '<', '=': '='}[c] for c in atom[3]))):
+            if M.is_call(x, 'len') and pred(x[2][0]) and M.is_const(y, 0):
+                if empty and rel == frozenset('='):
+                    return True
+                if (not empty) and rel and rel <= frozenset('<>') and '=' not in rel:
+                    return True
+            if M.is_call(x, 'len') and pred(x[2][0]) and M.is_const(y, 1):
+                if empty and rel == frozenset('<'):
+                    return True
+                if (not empty) and rel and rel <= frozenset('>='):
+                    return True
+    return False
